@@ -345,6 +345,7 @@ class Net:
         self.client_reader = None
         self.client_writer = None
         self.on_connect = None  # callable(call_index, host, port, reader, writer) for reactive peers
+        self.on_call = None  # callable(call) at the start of every open_connection call
 
     # -- await points
     def point(self, label):
@@ -395,6 +396,8 @@ class Net:
         addr = (host, port)
         call = {"i": i, "address": addr, "t_call": self.loop.time(), "t_done": None, "result": None, "writer": None}
         self.calls.append(call)
+        if self.on_call is not None:
+            self.on_call(call)
         label = "s%d" % i
         kind = self.point("connect:" + label)
         outcome = spec.get("outcome", "ok")
